@@ -27,11 +27,17 @@ The clause is FALSE on part of the documented domain `(0, 2)` (findings F9, F10)
    than `10^-8`; by the 700-digit reference search the true frontier of the `10^-8` claim for fractional exponents is
    `b ≈ 0.4737`: the proved interval `[0.5, 1.5]` stops 0.026 short of it on the low side; on the high side the bound
    `max(1,b)^⌊e⌋·10^-8` holds experimentally up to the F10 region `b ≥ 1.9999`).
-NOT PROVED: the F10 panic itself (`Pow(1.999999999999999999, 0.34)` = `none` needs 150000 loop iterations: out of
-reach of kernel evaluation; it stays a keyed known finding decided by the engine), the interval `(0.4737, 0.5)`, and
-`1.5 < b < 1.9999` at the `b^⌊e⌋·10^-8` level (needs the ALTERNATING remainder bound instead of the geometric one).
+   `pow_panics_near_two_witness` (F10 side): `Pow(1.999999999999999999, 0.02) = none` — an in-domain PANIC, proved
+   ANALYTICALLY (150000 iterations are out of reach of kernel evaluation: `decide +kernel` times out): every true term
+   `(a/k)·Π_{i<k}(1 − a/i)·x^k` stays above `9·10^-8` up to the iteration limit (`H_k ≤ 1 + ln k`), the computed terms
+   are within `10^-12` of them, so the stopping rule never fires (`Proofs/MathPowPanic`).
+NOT PROVED: F10's own witness exponent 0.34 (the same argument needs `Π_{i<k}(1 − 1.34/i) ≳ k^-1.34/Γ`, a Gamma-function
+bound, instead of the Weierstrass product inequality; it stays a keyed known finding decided by the engine), the
+interval `(0.4737, 0.5)`, and `1.5 < b < 1.9999` at the `b^⌊e⌋·10^-8` level (needs the ALTERNATING remainder bound
+instead of the geometric one; the proved bound there is `powApprox_accuracy_wide`).
 -/
 import OsmoVerif.Proofs.MathPowMid
+import OsmoVerif.Proofs.MathPowPanic
 
 namespace OsmoVerif.Props.C13Pow
 open OsmoVerif.MathM OsmoVerif.Num OsmoVerif.Gen OsmoVerif.GammMath
@@ -182,6 +188,26 @@ theorem pow_abs_precision_fails_above_one_witness :
   have := rpow_inv_lt (b := dv 1500000000000000000 ^ 13) (x := dv 3735051489635457860 - 1 / 10 ^ 8) (q := 4)
     (by positivity) (by unfold dv; norm_num) (by norm_num) (by unfold dv; norm_num)
   linarith only [this]
+
+/-- WITNESS (F10 side of the frontier): an in-domain input on which `Pow` PANICS — `Pow(1.999999999999999999, 0.02)`
+runs into the 150000-iteration limit (every term of the series stays above `9·10^-8`).  It fails loudly (`none`),
+but inside the documented domain `(0, 2)`. -/
+theorem pow_panics_near_two_witness : pow 1999999999999999999 20000000000000000 = none :=
+  pow_near_two_panics
+
+/-- … for ANY input: if every true term `|C(a,k)·x^k|`, `1 ≤ k ≤ 150000`, is at least `2·10^-8`, `PowApprox` panics. -/
+theorem powApprox_panics_of_slow_series {base exp x : Int} {xn : Bool} (hb : 0 < base)
+    (hx : absDiffSign base P18 = some (x, xn)) (hx0 : 0 ≤ x) (hx1 : dv x ≤ 1) (he0 : 0 < exp) (he1 : exp ≤ P18)
+    (hne : exp ≠ Osmomath.one_half)
+    (hT : ∀ k : ℕ, 1 ≤ k → k ≤ Osmomath.powIterationLimit → 2 / 10 ^ 8 ≤ |pterm (dv exp) (sg xn * dv x) k|) :
+    powApprox base exp Osmomath.powPrecision = none := by
+  rw [powApprox_eq hb (by omega) hne hx]
+  exact powApproxLoop_panics hx0 hx1 he0.le he1 hT (Osmomath.powIterationLimit + 2) 0 1 P18 P18 0 false (by omega)
+    (by decide) (by norm_num) (by norm_num) P18_pos.le
+    (by
+      have : pterm (dv exp) (sg xn * dv x) 0 = 1 := rfl
+      rw [this, sg_false, one_mul, dv_P18, sub_self, abs_zero]; simp)
+    (by rw [dv_P18]; norm_num)
 
 /-! ## non-vacuity -/
 
